@@ -73,7 +73,7 @@ pub fn probe(args: &[String]) {
         Some("c20-debug") => {
             let scratch = std::path::PathBuf::from("/dev/shm/vh-debug");
             let _ = std::fs::create_dir_all(&scratch);
-            let ctx = Ctx { seed: 1, shard: 0, nshards: 1, tier: crate::util::Tier::Quick, scale: 1.0, scratch, parts: vec![] };
+            let ctx = Ctx { seed: 1, shard: 0, nshards: 1, tier: crate::util::Tier::Quick, scale: 1.0, scratch, parts: vec![], only_seed: None, repeat: 1 };
             c20::debug_one(&ctx, args[1].parse().unwrap(), args[2].parse().unwrap(), args[3].parse().unwrap());
         }
         _ => std::process::exit(2),
